@@ -1,5 +1,5 @@
 """C07 — the filter is total: arbitrary input never crashes or hangs it."""
-import t2t, gen, impl, corr
+import gen, t2t, impl, corr
 
 OBLIGATIONS = ['Yalafi.C07_scan_total', 'Yalafi.C07_removeLines_total', 'Yalafi.C07_ml_total', 'Yalafi.C07_tex2txt_no_crash', 'Yalafi.C07_tex2txt_no_crash_current']
 
@@ -45,6 +45,14 @@ def run(ctx):
             if rng.random() < ctx.scale(0.25, 1.0):
                 cases.append({'src': rng.choice(['', 'A ', '\\begin{itemize}']) + nm + t, 'opts': {'pack': '*', 'lang': rng.choice(['', 'de', 'ru'])},
                               'multi': rng.random() < 0.2, 'kind': 'trunc', 'words': None, 'files': {'f1.tex': '\\footnote{x}\\newcommand{\\q}{Q}'}})
+    # every prefix of a small displayed equation, for every equation environment (a text that ends right behind & or \\\\)
+    for env in gen.EQ_ENVS + ['\\[', '$$']:
+        op, cl = ('\\begin{%s}' % env + ('{2}' if env.startswith('alignat') else ''), '\\end{%s}' % env) if env not in ('\\[', '$$') else (env, '\\]' if env == '\\[' else '$$')
+        full = 'Qa ' + op + ' a &= b \\\\[1ex] c & d \\\\ e' + cl + ' Qb'
+        for k in range(len('Qa ' + op), len(full) + 1):
+            cases.append({'src': full[:k], 'opts': {'pack': '*', 'lang': ''}, 'multi': False, 'kind': 'long', 'words': None})
+        cases.append({'src': '\\section{' + op + ' a \\\\}', 'opts': {'pack': '*'}, 'multi': False, 'kind': 'long', 'words': None})
+        cases.append({'src': '\\footnote{' + op + ' a &} Q', 'opts': {'pack': '*'}, 'multi': False, 'kind': 'long', 'words': None})
     # counters and generators driven far: long (nested) lists, many formulas, many footnotes
     for env in ('enumerate', 'itemize', 'description'):
         for depth in (1, 2, 3, 4):
